@@ -95,3 +95,40 @@ Theorem rejected_entity_changes_nothing fc fn d s fault :
 Proof.
   intros H. unfold run. destruct (is_consistent (d_ents d)); cbn [negb]; [rewrite H|]; exists RErr; split; reflexivity.
 Qed.
+
+(* a run that ends well without a fault wrote every entity of its plan, in the plan's order *)
+Lemma bulk_ok_writes_all fn : forall ch es clock nk idx wr es' clock' nk' w,
+  bulk fn es ch clock nk idx None wr = (ROk, es', clock', nk', w) -> w = rev wr ++ ch.
+Proof.
+  induction ch as [|a rest IH]; intros es clock nk idx wr es' clock' nk' w H; cbn [bulk] in H.
+  - inversion H; subst. rewrite app_nil_r. reflexivity.
+  - destruct (find_ent es a) as [e|] eqn:Fe; [|discriminate H].
+    destruct (generate fn es e (S clock) nk) as [[r0 fo] nk1] eqn:G.
+    destruct r0; try discriminate H.
+    destruct fo as [f|]; [|discriminate H].
+    apply IH in H. rewrite H. cbn [rev]. rewrite <- app_assoc. reflexivity.
+Qed.
+
+Theorem successful_run_writes_the_plan fc fn d s d' w :
+  run fc fn d s None = (ROk, d', w) -> plan fc (d_ents d) s = Some w.
+Proof.
+  unfold run. intros H.
+  destruct (is_consistent (d_ents d)); cbn [negb] in H; [|discriminate H].
+  destruct (plan fc (d_ents d) s) as [ch|]; [|discriminate H].
+  destruct (bulk fn (d_ents d) ch (d_clock d) (d_nextkey d) 0 None []) as [[[[r es] clock] nk] w0] eqn:B.
+  inversion H; subst. apply bulk_ok_writes_all in B. cbn [rev app] in B. subst. reflexivity.
+Qed.
+
+(* C11 at the level of whole runs: a fault-free run that ends well has regenerated exactly the entities the documented relation
+   demands for its flags, each once, every issuer before its subjects *)
+Theorem successful_run_regenerates_exactly fn d s d' w :
+  forest (d_ents d) -> all_valid (d_ents d) ->
+  run true fn d s None = (ROk, d', w) ->
+  (forall a, In a w <-> regen (d_ents d) s a) /\ NoDup w /\
+  (forall i j x y e, nth_error w i = Some x -> nth_error w j = Some y ->
+                     find_ent (d_ents d) y = Some e -> issuer_of e = Some x -> i < j).
+Proof.
+  intros F V H. apply successful_run_writes_the_plan in H.
+  destruct (plan_spec (d_ents d) s F V) as (ch & P & R & N & O).
+  rewrite P in H. inversion H; subst. repeat split; try assumption; apply R.
+Qed.
